@@ -10,6 +10,10 @@ from .engine import core
 NUM = 'fiu'
 
 
+def _head(x, n):
+    return x[:n]
+
+
 def _structure(f):
     dims = OrderedDict((k, len(d)) for k, d in f.dimensions.items())
     vars_ = OrderedDict()
@@ -80,6 +84,8 @@ def menu(f, with_queries=False, full=True):
             add('apply', num and dims[d] >= 1, dim=d, fn=['r', 'max'])
             if d == d0:
                 add('apply', num and dims[d] >= 1, dim=d, fn=['r', 'min'], alias=True)
+            if d == dl:
+                add('apply', num and dims[d] >= 1 and lens_ok and not (conv and dims[d] <= 1), dim=d, fn=['k', 'head_2'])
             add('apply', num and dims[d] >= 1 and lens_ok and not (conv and dims[d] <= 1),
                 dim=d, fn=['f', 'diff'])
         # convention files: only stacking in time is documented (the vertical
@@ -176,6 +182,9 @@ def do_op(f, op):
         return f.slice(**kw) if op.get('alias') else f.sliceDimensions(**kw)
     if name == 'apply':
         fn = op['fn']
+        if fn[0] == 'k':
+            # the dict form with a required keyword option that decides the output length
+            return f.applyAlongDimensions(**{op['dim']: dict(func1d=_head, n=int(fn[1].split('_')[1]))})
         return (f.apply if op.get('alias') else f.applyAlongDimensions)(
             **{op['dim']: fn[1] if fn[0] == 'r' else rops.FUNCS[fn[1]]})
     if name == 'stack':
